@@ -46,6 +46,9 @@ pub fn make_tree(tag: &str) -> Tree {
     for (n, s) in [
         ("a", "plain a"),
         ("...", "three dots"),
+        ("....", "four dots"),
+        ("a....", "a and four dots"),
+        ("......", "six dots"),
         ("..a", "dot dot a"),
         ("a..", "a dot dot"),
         ("a.gz", "gz of a"),
@@ -227,7 +230,7 @@ pub fn check(rt: &tokio::runtime::Runtime, tree: &Tree, dirs: &(Arc<FsDir>, Arc<
     Ok(())
 }
 
-pub const SEGMENTS: &[&str] = &["a", "sub", "..", ".", "...", "..a", "a..", "", "secret", "link"];
+pub const SEGMENTS: &[&str] = &["a", "sub", "..", ".", "...", "..a", "a..", "", "secret", "link", "....", "a....", "......"];
 pub const AES: &[Option<&str>] = &[None, Some("gzip"), Some("identity"), Some("gzip;q=0"), Some("*")];
 
 fn paths_from(first: &str, max_segments: usize) -> Vec<String> {
@@ -338,7 +341,7 @@ pub fn run(cx: &Cx) -> Acc {
         rt.shutdown_background();
     }));
     // Named files of the tree, directly (gz decisions on every file).
-    let named: Vec<&str> = vec!["a", "b", "c", "c.gz", "a.gz", "sub", "sub/a", "sub/", "sub/.gz", "sub.gz", "...", "..a", "a..", "link", "b.gz", "b.gz/", "missing", "a/x", "sub/missing", "....gz", "sub/./a", "./a", "sub//a", "d", "e", "d.gz", "f", "g", "a.gz.gz", "sub/a.gz"];
+    let named: Vec<&str> = vec!["a", "b", "c", "c.gz", "a.gz", "sub", "sub/a", "sub/", "sub/.gz", "sub.gz", "...", "..a", "a..", "link", "b.gz", "b.gz/", "missing", "a/x", "sub/missing", "....gz", "....", "a....", "......", "sub/....", "a.b....", "v1......", "sub/./a", "./a", "sub//a", "d", "e", "d.gz", "f", "g", "a.gz.gz", "sub/a.gz"];
     acc.merge(par_units(cx, "named", &named, true, "every named node of the tree x Accept-Encoding x auto_gzip", |cx, p, acc| {
         let tree = make_tree(&format!("c19n-{}", fingerprint(p)));
         let rt = tokio::runtime::Builder::new_multi_thread().worker_threads(1).max_blocking_threads(2).build().expect("runtime");
